@@ -44,6 +44,7 @@ func serDecodeReader(ps *types.PartSet, out interface{}, max int64) (int64, erro
 
 type job struct {
 	Edges     string     `json:"edges"`
+	Coded     string     `json:"coded"` // edges of the AsCoded graph (pi_shape conformance of the tree as it is)
 	Scenarios []scenario `json:"scenarios"`
 	Dir       string     `json:"dir"`
 }
@@ -58,9 +59,11 @@ func child(c *core.Ctx) {
 	}
 	kw := newKillWatch()
 	defer kw.stop()
-	var gi *graphIndex
-	if j.Edges != "" {
-		b, err := ioutil.ReadFile(j.Edges)
+	load := func(file string) *graphIndex {
+		if file == "" {
+			return nil
+		}
+		b, err := ioutil.ReadFile(file)
 		if err != nil {
 			fmt.Fprintln(os.Stderr, err)
 			os.Exit(3)
@@ -70,15 +73,26 @@ func child(c *core.Ctx) {
 			fmt.Fprintln(os.Stderr, err)
 			os.Exit(3)
 		}
-		gi = &graphIndex{g: g}
+		return newGraphIndex(g)
 	}
+	gi, coded := load(j.Edges), load(j.Coded)
 	for k, sc := range j.Scenarios {
 		fmt.Printf("AT %s\n", sc.String())
-		out := play(sc, gi, kw, filepath.Join(j.Dir, fmt.Sprintf("w%d", k)))
+		out := play(sc, gi, coded, kw, filepath.Join(j.Dir, fmt.Sprintf("w%d", k)))
 		b, _ := json.Marshal(out)
 		fmt.Printf("RESULT %s\n", b)
 	}
 	fmt.Println("DONE")
+}
+
+func newGraphIndex(g *mbt.Graph) *graphIndex {
+	gi := &graphIndex{g: g, classes: map[string]bool{}}
+	for _, ei := range g.Out[0] {
+		var a modelAct
+		json.Unmarshal(g.Edges[ei].Act, &a)
+		gi.classes[className(a.Cls)] = true
+	}
+	return gi
 }
 
 // clauseKey names the clause a violation is reported under: the one validateBlock would
@@ -103,9 +117,19 @@ func clauseKey(flags []string) string {
 	return "none"
 }
 
-func run(c *core.Ctx) {
+type ctx struct{ *core.Ctx }
+
+func (c ctx) pickS(q, t string) string {
+	if c.Thorough() {
+		return t
+	}
+	return q
+}
+
+func run(cc *core.Ctx) {
+	c := ctx{cc}
 	if c.Child != "" {
-		child(c)
+		child(cc)
 		return
 	}
 	o := c.Out()
@@ -123,19 +147,19 @@ func run(c *core.Ctx) {
 
 	// ---- (1) the design: TLC ---------------------------------------------------------
 	type tlcJob struct {
-		cfg     string
-		expect  string // invariant that must be violated ("" = must hold)
-		export  bool
-		workers int
+		cfg    string
+		expect string // invariant that must be violated ("" = must hold)
+		export string // "" | "required" | "coded"
 	}
 	jobs := []tlcJob{
-		{"AsRequired.cfg", "", true, 1},
-		{"AsRequiredLive.cfg", "", false, 1},
-		{"AsCoded.cfg", "VotesOnlyFullyValid", false, 1},
-		{"AsCodedWedge.cfg", "NoWedge", false, 1},
+		{c.pickS("AsRequired.cfg", "AsRequiredBig.cfg"), "", "required"},
+		{c.pickS("AsRequiredLive.cfg", "AsRequiredLiveBig.cfg"), "", ""},
+		{"AsCoded.cfg", "VotesOnlyFullyValid", ""},
+		{"AsCodedWedge.cfg", "NoWedge", ""},
+		{"AsCodedGraph.cfg", "", "coded"},
 	}
 	if c.Thorough() {
-		jobs = append(jobs, tlcJob{"AsRequiredFree.cfg", "", false, 1}, tlcJob{"AsCodedGraph.cfg", "", false, 1})
+		jobs = append(jobs, tlcJob{"AsRequiredFree.cfg", "", ""})
 	}
 	results := make([]*tlc.Result, len(jobs))
 	var wg sync.WaitGroup
@@ -143,11 +167,11 @@ func run(c *core.Ctx) {
 		wg.Add(1)
 		go func(i int, tj tlcJob) {
 			defer wg.Done()
-			results[i] = c.TLC(tlc.Options{SpecDir: c.SpecDir("BlockValidity"), Module: "MC_BlockValidity", Config: tj.cfg, Workers: tj.workers, Timeout: c.MinutesT(3, 15)})
+			results[i] = c.TLC(tlc.Options{SpecDir: c.SpecDir("BlockValidity"), Module: "MC_BlockValidity", Config: tj.cfg, Workers: 1, Timeout: c.MinutesT(5, 15)})
 		}(i, tj)
 	}
 	wg.Wait()
-	var lines []string
+	var lines, codedLines []string
 	leads := map[string]string{}
 	for i, tj := range jobs {
 		res := results[i]
@@ -164,8 +188,11 @@ func run(c *core.Ctx) {
 		case tj.expect != "":
 			leads[tj.cfg] = res.Violated
 		}
-		if tj.export {
+		switch tj.export {
+		case "required":
 			lines = res.Lines
+		case "coded":
+			codedLines = res.Lines
 		}
 	}
 	c.SetExtra("model_leads_as_coded", leads)
@@ -192,14 +219,32 @@ func run(c *core.Ctx) {
 		return
 	}
 	defer os.RemoveAll(base)
-	edgeFile := filepath.Join(base, "edges.ndjson")
+	edgeFile, codedFile := filepath.Join(base, "edges.ndjson"), filepath.Join(base, "coded.ndjson")
 	if err := ioutil.WriteFile(edgeFile, []byte(strings.Join(lines, "\n")), 0644); err != nil {
+		c.Infra("write edges: %v", err)
+		return
+	}
+	if err := ioutil.WriteFile(codedFile, []byte(strings.Join(codedLines, "\n")), 0644); err != nil {
 		c.Infra("write edges: %v", err)
 		return
 	}
 
 	// ---- (2) the plan ------------------------------------------------------------------
-	scs := plan(c)
+	scs := plan(cc)
+	if c.Replay != "" {
+		// re-run the behaviour of a recorded violation (fresh validator keys; same corruption, height, choices, storage mode)
+		var rf struct {
+			Record struct {
+				Scenario scenario `json:"scenario"`
+			} `json:"record"`
+		}
+		b, err := ioutil.ReadFile(c.Replay)
+		if err != nil || json.Unmarshal(b, &rf) != nil || len(rf.Record.Scenario.Names) == 0 {
+			c.Infra("cannot read the behaviour from replay file %s", c.Replay)
+			return
+		}
+		scs = []scenario{rf.Record.Scenario}
+	}
 	nJobs := c.Pick(8, 10)
 	perJob := make([][]scenario, nJobs)
 	for i, sc := range scs {
@@ -214,8 +259,8 @@ func run(c *core.Ctx) {
 		wg.Add(1)
 		go func(ji int) {
 			defer wg.Done()
-			arg, _ := json.Marshal(job{Edges: edgeFile, Scenarios: perJob[ji], Dir: filepath.Join(base, fmt.Sprintf("j%d", ji))})
-			res, at, crash := c.RunChild(string(arg), c.MinutesT(3, 25))
+			arg, _ := json.Marshal(job{Edges: edgeFile, Coded: codedFile, Scenarios: perJob[ji], Dir: filepath.Join(base, fmt.Sprintf("j%d", ji))})
+			res, at, crash := c.RunChild(string(arg), c.MinutesT(6, 25))
 			mu.Lock()
 			defer mu.Unlock()
 			for _, r := range res {
@@ -234,7 +279,7 @@ func run(c *core.Ctx) {
 		}(ji)
 	}
 	wg.Wait()
-	judge(c, g, outs, len(scs))
+	judge(cc, g, outs, len(scs))
 }
 
 // plan lists the behaviours to replay.
@@ -280,15 +325,15 @@ func plan(c *core.Ctx) []scenario {
 						scs = append(scs, scenario{Names: []string{e.Name}, H: H, Choices: ch, Perm: rng.Intn(2), Trie: rng.Intn(2) == 0})
 					}
 				}
-			} else if !e.Probe {
+			} else if !e.Probe && rng.Intn(2) == 0 {
 				ch := allChoices[1+rng.Intn(6)]
 				scs = append(scs, scenario{Names: []string{e.Name}, H: H, Choices: ch, Perm: rng.Intn(2), Trie: rng.Intn(2) == 0})
 			}
 		}
 		// joint corruptions of two field classes
-		nPairs := c.Pick(24, 200)
+		nPairs := c.Pick(20, 200)
 		if H != 2 {
-			nPairs = c.Pick(6, 80)
+			nPairs = c.Pick(5, 80)
 		}
 		for _, p := range pairsFor(H, rng, nPairs) {
 			ch := rrr
@@ -311,6 +356,18 @@ func plan(c *core.Ctx) []scenario {
 		}
 	}
 	scs = append(scs, scenario{Names: []string{"none"}, H: 2, Choices: rrr, PrevRound1: true, Trie: true})
+	// blocks of several parts
+	big := []string{"none", "chain/other-id", "lastcommit/too-little-power", "statehash/flip"}
+	if c.Thorough() {
+		for k := 0; k < 12; k++ {
+			big = append(big, catalogue[rng.Intn(len(catalogue))].Name)
+		}
+	}
+	for _, n := range big {
+		if e := byName(n); e != nil && e.applies(2) && !e.Probe {
+			scs = append(scs, scenario{Names: []string{n}, H: 2, Choices: rrr, Perm: rng.Intn(2), Trie: rng.Intn(2) == 0, Txs: 400})
+		}
+	}
 	// negative controls of the binding (must be rejected)
 	scs = append(scs, scenario{Names: []string{"none"}, H: 2, Choices: rrr, Trie: true, Tamper: "stored"},
 		scenario{Names: []string{"statehash/flip"}, H: 2, Choices: rrr, Trie: true, Tamper: "vote"})
@@ -318,6 +375,10 @@ func plan(c *core.Ctx) []scenario {
 		// development aid: restrict the plan to behaviours whose description contains one of the substrings
 		var keep []scenario
 		for _, sc := range scs {
+			if sc.Tamper != "" {
+				keep = append(keep, sc)
+				continue
+			}
 			for _, sub := range strings.Split(only, ",") {
 				if strings.Contains(sc.String(), sub) {
 					keep = append(keep, sc)
@@ -333,7 +394,20 @@ func plan(c *core.Ctx) []scenario {
 // judge turns the outcomes into the verdict.
 func judge(c *core.Ctx, g *mbt.Graph, outs []outcome, planned int) {
 	o := c.Out()
-	sort.Slice(outs, func(i, j int) bool { return outs[i].Desc < outs[j].Desc })
+	// single corruptions served to everybody first: they make the clearest records
+	rank := func(x outcome) int {
+		r := 2 * (len(x.Scenario.Names) - 1)
+		if x.Scenario.Choices != [3]bool{true, true, true} {
+			r++
+		}
+		return r
+	}
+	sort.Slice(outs, func(i, j int) bool {
+		if ri, rj := rank(outs[i]), rank(outs[j]); ri != rj {
+			return ri < rj
+		}
+		return outs[i].Desc < outs[j].Desc
+	})
 	skipped := map[string]int{}
 	distinct := map[string]bool{}
 	classes := map[string]int{}
@@ -343,6 +417,9 @@ func judge(c *core.Ctx, g *mbt.Graph, outs []outcome, planned int) {
 	nInfra := 0
 	controlsOK := 0
 	refused := 0
+	multiPart, maxTxs, prevR1 := 0, 0, 0
+	covered := map[int]bool{}
+	asCodedOK, asCodedSteps, asCodedBad := 0, 0, 0
 	for _, out := range outs {
 		if out.Infra != "" {
 			if nInfra < 5 {
@@ -363,6 +440,29 @@ func judge(c *core.Ctx, g *mbt.Graph, outs []outcome, planned int) {
 		}
 		o.Traces++
 		o.Evaluations += out.NSteps * 3
+		for _, ei := range out.EdgeIdx {
+			covered[ei] = true
+		}
+		if out.Parts > 1 {
+			multiPart++
+		}
+		if out.HonestTxs > maxTxs {
+			maxTxs = out.HonestTxs
+		}
+		if out.PrevRound > 0 {
+			prevR1++
+		}
+		switch out.AsCoded {
+		case "":
+		case "conforms":
+			asCodedOK++
+			asCodedSteps += out.AsCodedN
+		default:
+			asCodedBad++
+			if asCodedBad <= 5 {
+				c.Drift("%s leaves the AsRequired model (%s) and does not follow the AsCoded model either: %s", out.Desc, out.Divergence, out.AsCoded)
+			}
+		}
 		classes[out.Class]++
 		for _, n := range out.Scenario.Names {
 			corruptions[n]++
@@ -374,7 +474,7 @@ func judge(c *core.Ctx, g *mbt.Graph, outs []outcome, planned int) {
 			c.Sample(map[string]interface{}{"behaviour": out.Desc, "class": out.Class, "validateBlock_reports": out.ValidateErr, "model_steps": out.NSteps,
 				"real_deliveries": out.Deliveries, "conforms": out.Conforms, "last_step": out.Steps[len(out.Steps)-1]})
 		}
-		rec := map[string]interface{}{"behaviour": out.Desc, "corruptions": out.Scenario.Names, "class": out.Flags, "height": out.Scenario.H,
+		rec := map[string]interface{}{"behaviour": out.Desc, "scenario": out.Scenario, "corruptions": out.Scenario.Names, "class": out.Flags, "height": out.Scenario.H,
 			"choices_n1_n2_n3_received": out.Scenario.Choices, "bad_block": out.BadHash, "validateBlock_reports": out.ValidateErr,
 			"votes_for_invalid_block": out.VotesForBad, "persisted_at": out.Persisted, "asked_to_be_killed": out.Killed, "failed": out.Failed,
 			"restart": out.Restart, "all_applied_a_block": out.AllApplied, "first_divergence_from_model": out.Divergence, "steps": out.Steps}
@@ -389,7 +489,7 @@ func judge(c *core.Ctx, g *mbt.Graph, outs []outcome, planned int) {
 			key = strings.Join(out.Scenario.Names, "+")
 		}
 		// drift: the catalogue's label against the clause the real validateBlock reports
-		if !probe && out.ModelErr != "" && out.ValidateErr != out.ModelErr && shapeLabel < 8 {
+		if !probe && len(out.Scenario.Names) == 1 && out.ModelErr != "" && out.ValidateErr != out.ModelErr && shapeLabel < 8 {
 			shapeLabel++
 			c.Drift("%s: the model expects validateBlock to report %q, the real one reports %q", out.Desc, out.ModelErr, out.ValidateErr)
 		}
@@ -446,10 +546,15 @@ func judge(c *core.Ctx, g *mbt.Graph, outs []outcome, planned int) {
 	c.SetExtra("controls_voted_and_committed", controlsOK)
 	c.SetExtra("invalid_blocks_refused_chain_continued", refused)
 	c.SetExtra("negative_controls_rejected", tamperRejected)
-	if tamperRejected < 2 {
+	c.SetExtra("model_edges_followed_on_real_nodes", len(covered))
+	c.SetExtra("behaviours_with_multi_part_block", multiPart)
+	c.SetExtra("max_txs_in_block", maxTxs)
+	c.SetExtra("behaviours_after_a_round_1_commit", prevR1)
+	c.SetExtra("as_coded_conformance", map[string]int{"behaviours_leaving_AsRequired_that_follow_AsCoded_step_by_step": asCodedOK, "steps_compared": asCodedSteps, "follow_neither": asCodedBad})
+	if c.Replay == "" && tamperRejected < 2 {
 		c.Infra("vacuous binding: only %d of 2 falsified observations were rejected by the replay", tamperRejected)
 	}
-	if controlsOK == 0 {
+	if c.Replay == "" && controlsOK == 0 {
 		c.Infra("no control behaviour (untouched block) was voted and committed")
 	}
 	if nInfra > 0 {
